@@ -22,15 +22,23 @@ import (
 )
 
 type SyncSpec struct {
-	N           int    `json:"n"`               // validators
-	Prefix      int    `json:"prefix"`          // common blocks after genesis
-	Own         int    `json:"own"`             // length of A's fork
-	Peer        int    `json:"peer"`            // length of B's fork
-	Full        bool   `json:"full"`            // all validators forge (finality advances); otherwise two of them (no finality)
-	HCB         string `json:"hcb"`             // honest | none | foreign | low
-	Corrupt     int    `json:"corrupt"`         // index in the served stream of the corrupted block, -1 = none
-	CorruptKind string `json:"corruptkind"`     // sig (processing rejects) | static (Validate rejects)
-	ErrAfter    int    `json:"errafter"`        // answer an error once this many blocks have been served, -1 = never
+	N           int    `json:"n"`                  // validators
+	Prefix      int    `json:"prefix"`             // common blocks after genesis
+	Own         int    `json:"own"`                // length of A's fork
+	Peer        int    `json:"peer"`               // length of B's fork
+	Full        bool   `json:"full"`               // all validators forge (finality advances); otherwise two of them (no finality)
+	HCB         string `json:"hcb"`                // honest | none | foreign | low
+	Corrupt     int    `json:"corrupt"`            // index in the served stream of the corrupted block, -1 = none
+	CorruptKind string `json:"corruptkind"`        // sig (processing rejects) | static (Validate rejects)
+	ErrAfter    int    `json:"errafter"`           // answer an error once this many blocks have been served, -1 = never
+	ForkMode    string `json:"forkmode,omitempty"` // "" = both forks like the prefix (Full); "peerfull" = own fork by two validators, peer's fork by all (better although shorter)
+	Recent      bool   `json:"recent,omitempty"`   // genesis time such that the last block's slot is the current one (the finalized block is recent)
+	// third node: the SENDER of the block that triggers the sync is not the best peer. It shares the prefix and the first
+	// SenderShare blocks of our own fork, then has SenderOwn blocks of its own
+	Sender      bool `json:"sender,omitempty"`
+	SenderShare int  `json:"sendershare,omitempty"`
+	SenderOwn   int  `json:"senderown,omitempty"`
+	genesisTime uint32
 	Stall       string `json:"stall,omitempty"` // instead of the error: "empty" = answer zero blocks forever, "repeat" = answer the first segment forever
 	// optional second sync on the same node afterwards (a later block from the same peer): A first extends its chain by Own2
 	// blocks; the peer then follows this script
@@ -53,11 +61,19 @@ type peerScript struct {
 }
 
 type SyncObs struct {
-	Spec       SyncSpec    `json:"spec"`
-	Kind       string      `json:"kind"`   // fast | block
-	Before     []uint64    `json:"before"` // A's chain as codes, index = height
-	After      []uint64    `json:"after"`
-	Phase      int         `json:"phase"`      // 1 = first sync of the scenario, 2 = second
+	Spec   SyncSpec `json:"spec"`
+	Kind   string   `json:"kind"`   // fast | block
+	Before []uint64 `json:"before"` // A's chain as codes, index = height
+	After  []uint64 `json:"after"`
+	Phase  int      `json:"phase"` // 1 = first sync of the scenario, 2 = second
+	// ground truth of the scenario (independent of what the peers answered)
+	PeerChain  []uint64    `json:"peerchain"`  // chain of the best peer (B)
+	Honest     bool        `json:"honest"`     // the peers follow the protocol in this sync
+	Better     bool        `json:"better"`     // B's tip has priority over ours: larger maxHeightPrevoted, or equal and higher
+	ForkH      uint32      `json:"forkh"`      // height of the last block we share with B
+	OwnH       uint32      `json:"ownh"`       // our tip height before
+	BlockH     uint32      `json:"blockh"`     // height of the block that triggers the sync (the sender's tip)
+	SlotGap    int         `json:"slotgap"`    // current slot - slot of our finalized block
 	TempBefore [][2]uint64 `json:"tempbefore"` // (height, code) of A's temp blocks before this sync
 	Finalized  uint32      `json:"finalized"`  // A's finalized height before
 	TargetH    uint32      `json:"targeth"`
@@ -161,58 +177,39 @@ func RunSyncAll(spec SyncSpec, pre, after func(a *exh.Node)) (out []SyncObs) {
 		}
 	}()
 	obs = SyncObs{Spec: spec, Before: []uint64{}, After: []uint64{}, Delivered: []uint64{}, Links: [][2]uint64{}, TempAfter: [][2]uint64{}}
+	if spec.Recent && spec.genesisTime == 0 {
+		// first pass: measure how many slots the scenario needs, then rebuild it with the genesis that far in the past
+		last, err := measureSlots(spec)
+		if err != nil {
+			obs.Fail = "measure: " + err.Error()
+			return nil
+		}
+		spec2 := spec
+		spec2.genesisTime = uint32(time.Now().Unix()) - uint32(last)*10 - 4 // now is 4 s into the slot of the newest block
+		res := RunSyncAll(spec2, pre, after)
+		for i := range res {
+			res[i].Spec = spec
+		}
+		return res
+	}
 	cd := &coder{m: map[string]uint64{}}
-	a, err := exh.New(exh.Options{N: spec.N})
+	a, b, c, links, err := buildChains(spec, cd)
+	if a != nil {
+		defer a.DB.Close()
+	}
+	if b != nil {
+		defer b.DB.Close()
+	}
+	if c != nil {
+		defer c.DB.Close()
+	}
 	if err != nil {
-		obs.Fail = "node A: " + err.Error()
+		obs.Fail = err.Error()
 		return nil
 	}
-	defer a.DB.Close()
-	b, err := exh.New(exh.Options{N: spec.N, GenesisTime: a.Opt.GenesisTime})
-	if err != nil {
-		obs.Fail = "node B: " + err.Error()
-		return nil
-	}
-	defer b.DB.Close()
-	if !bytes.Equal(a.Genesis.Header.ID, b.Genesis.Header.ID) {
-		obs.Fail = "genesis blocks differ"
-		return nil
-	}
+	obs.Links = links
 	link := func(blk *blockchain.Block) {
 		obs.Links = append(obs.Links, [2]uint64{cd.of(blk.Header.PreviousBlockID), cd.of(blk.Header.ID)})
-	}
-	cd.of(a.Genesis.Header.ID)
-	for i := 0; i < spec.Prefix; i++ {
-		blk := nextBlock(a, spec.Full, 0)
-		if r := a.ProcessValidated(blk, false); !r.OK() {
-			obs.Fail = fmt.Sprintf("prefix block %d on A: %v %s", i, r.Err, r.Panic)
-			return nil
-		}
-		if r := b.ProcessValidated(clone(blk), false); !r.OK() {
-			obs.Fail = fmt.Sprintf("prefix block %d on B: %v %s", i, r.Err, r.Panic)
-			return nil
-		}
-		link(blk)
-	}
-	for i := 0; i < spec.Own; i++ {
-		blk := nextBlock(a, spec.Full, 0)
-		if r := a.ProcessValidated(blk, false); !r.OK() {
-			obs.Fail = fmt.Sprintf("own block %d: %v %s", i, r.Err, r.Panic)
-			return nil
-		}
-		link(blk)
-	}
-	for i := 0; i < spec.Peer; i++ {
-		extra := 0
-		if i == 0 {
-			extra = spec.N // same generator, a later slot: a different block at the same height
-		}
-		blk := nextBlock(b, spec.Full, extra)
-		if r := b.ProcessValidated(blk, false); !r.OK() {
-			obs.Fail = fmt.Sprintf("peer block %d: %v %s", i, r.Err, r.Panic)
-			return nil
-		}
-		link(blk)
 	}
 	if pre != nil {
 		pre(a)
@@ -376,6 +373,35 @@ func RunSyncAll(spec SyncSpec, pre, after func(a *exh.Node)) (out []SyncObs) {
 		obs.Fail = "connect: " + err.Error()
 		return nil
 	}
+	sender, senderNode := connB.Peer.ID(), b
+	if c != nil {
+		// the sender C: an honest node serving its own chain through the real handlers
+		connC, _ := startConn(a.Opt.ChainID)
+		syncerC := csync.NewSyncer(c.Chain, slot, connC, lg, noProc, noRev)
+		_ = connC.RegisterRPCHandler(csync.RPCEndpointGetLastBlock, syncerC.HandleRPCEndpointGetLastBlock())
+		_ = connC.RegisterRPCHandler(csync.RPCEndpointGetHighestCommonBlock, syncerC.HandleRPCEndpointGetHighestCommonBlock())
+		_ = connC.RegisterRPCHandler(csync.RPCEndpointGetBlocksFromID, syncerC.HandleRPCEndpointGetBlocksFromID())
+		if err := connC.Start([]byte{}); err != nil {
+			obs.Fail = "start C: " + err.Error()
+			return nil
+		}
+		defer connC.Stop() //nolint:errcheck
+		addrsC, err := connC.Peer.MultiAddress()
+		if err != nil || len(addrsC) == 0 {
+			obs.Fail = "C has no address"
+			return nil
+		}
+		infoC, err := p2p.AddrInfoFromMultiAddr(addrsC[0])
+		if err != nil {
+			obs.Fail = "addr C: " + err.Error()
+			return nil
+		}
+		if err := connA.Peer.Connect(context.Background(), *infoC); err != nil {
+			obs.Fail = "connect C: " + err.Error()
+			return nil
+		}
+		sender, senderNode = connC.Peer.ID(), c
+	}
 	vals := make([]codec.Lisk32, 0, spec.N)
 	for _, ad := range a.GeneratorAddrs() {
 		vals = append(vals, ad)
@@ -422,8 +448,26 @@ func RunSyncAll(spec SyncSpec, pre, after func(a *exh.Node)) (out []SyncObs) {
 		obs.Finalized = fin
 		obs.Before = chainCodes(a, cd)
 		obs.TempBefore = tempOf()
-		obs.TargetH = b.Tip().Header.Height
-		diff := int(b.Tip().Header.Height) - int(a.Tip().Header.Height)
+		obs.TargetH = senderNode.Tip().Header.Height
+		obs.PeerChain = chainCodes(b, cd)
+		obs.Honest = script.hcb == "honest" && script.corrupt < 0 && script.errAfter < 0
+		at, bt := a.Tip().Header, b.Tip().Header
+		amhp, _, _ := a.Heights()
+		bmhp, _, _ := b.Heights()
+		_ = amhp
+		_ = bmhp
+		obs.Better = at.MaxHeightPrevoted < bt.MaxHeightPrevoted || (at.MaxHeightPrevoted == bt.MaxHeightPrevoted && at.Height < bt.Height)
+		obs.ForkH = 0
+		for h := uint32(0); h <= at.Height && h <= bt.Height; h++ {
+			ha, hb := a.HeaderAt(h), b.HeaderAt(h)
+			if ha == nil || hb == nil || !bytes.Equal(ha.ID, hb.ID) {
+				break
+			}
+			obs.ForkH = h
+		}
+		obs.OwnH, obs.BlockH = at.Height, senderNode.Tip().Header.Height
+		obs.SlotGap = a.Slot(uint32(time.Now().Unix())) - a.Slot(a.HeaderAt(fin).Timestamp)
+		diff := int(senderNode.Tip().Header.Height) - int(a.Tip().Header.Height)
 		if diff < 0 {
 			diff = -diff
 		}
@@ -439,7 +483,7 @@ func RunSyncAll(spec SyncSpec, pre, after func(a *exh.Node)) (out []SyncObs) {
 		}
 		dumpBeforeKV := a.Dump()
 		ctx, cancel := context.WithTimeout(context.Background(), 25*time.Second)
-		sctx := &csync.SyncContext{Ctx: ctx, Block: clone(b.Tip()), FinalizedBlockHeader: finHeader, PeerID: connB.Peer.ID(), CurrentValidators: vals}
+		sctx := &csync.SyncContext{Ctx: ctx, Block: clone(senderNode.Tip()), FinalizedBlockHeader: finHeader, PeerID: sender, CurrentValidators: vals}
 		done := make(chan string, 1)
 		go func() {
 			defer func() {
@@ -530,4 +574,108 @@ func RunSyncAll(spec SyncSpec, pre, after func(a *exh.Node)) (out []SyncObs) {
 		}
 	}
 	return out
+}
+
+// buildChains creates node A (prefix + own fork), the best peer B (prefix + peer fork) and, if asked, the sender C.
+func buildChains(spec SyncSpec, cd *coder) (a, b, c *exh.Node, links [][2]uint64, err error) {
+	links = [][2]uint64{}
+	a, err = exh.New(exh.Options{N: spec.N, GenesisTime: spec.genesisTime})
+	if err != nil {
+		return
+	}
+	b, err = exh.New(exh.Options{N: spec.N, GenesisTime: a.Opt.GenesisTime})
+	if err != nil {
+		return
+	}
+	if !bytes.Equal(a.Genesis.Header.ID, b.Genesis.Header.ID) {
+		err = fmt.Errorf("genesis blocks differ")
+		return
+	}
+	nodes := []*exh.Node{a, b}
+	if spec.Sender {
+		c, err = exh.New(exh.Options{N: spec.N, GenesisTime: a.Opt.GenesisTime})
+		if err != nil {
+			return
+		}
+		nodes = append(nodes, c)
+	}
+	link := func(blk *blockchain.Block) {
+		links = append(links, [2]uint64{cd.of(blk.Header.PreviousBlockID), cd.of(blk.Header.ID)})
+	}
+	ownFull, peerFull := spec.Full, spec.Full
+	if spec.ForkMode == "peerfull" {
+		ownFull, peerFull = false, true
+	}
+	cd.of(a.Genesis.Header.ID)
+	for i := 0; i < spec.Prefix; i++ {
+		blk := nextBlock(a, spec.Full, 0)
+		for ni, n := range nodes {
+			if r := n.ProcessValidated(clone(blk), false); !r.OK() {
+				err = fmt.Errorf("prefix block %d on node %d: %v %s", i, ni, r.Err, r.Panic)
+				return
+			}
+		}
+		link(blk)
+	}
+	for i := 0; i < spec.Own; i++ {
+		blk := nextBlock(a, ownFull, 0)
+		if r := a.ProcessValidated(blk, false); !r.OK() {
+			err = fmt.Errorf("own block %d: %v %s", i, r.Err, r.Panic)
+			return
+		}
+		if c != nil && i < spec.SenderShare {
+			if r := c.ProcessValidated(clone(blk), false); !r.OK() {
+				err = fmt.Errorf("shared block %d on the sender: %v %s", i, r.Err, r.Panic)
+				return
+			}
+		}
+		link(blk)
+	}
+	for i := 0; i < spec.Peer; i++ {
+		extra := 0
+		if i == 0 {
+			extra = spec.N // same generator, a later slot: a different block at the same height
+			if spec.ForkMode == "peerfull" {
+				extra = 0 // the generators differ anyway; keep the slots dense
+			}
+		}
+		blk := nextBlock(b, peerFull, extra)
+		if r := b.ProcessValidated(blk, false); !r.OK() {
+			err = fmt.Errorf("peer block %d: %v %s", i, r.Err, r.Panic)
+			return
+		}
+		link(blk)
+	}
+	if c != nil {
+		for i := 0; i < spec.SenderOwn; i++ {
+			extra := 0
+			if i == 0 {
+				extra = 2 * spec.N
+			}
+			blk := nextBlock(c, spec.Full, extra)
+			if r := c.ProcessValidated(blk, false); !r.OK() {
+				err = fmt.Errorf("sender block %d: %v %s", i, r.Err, r.Panic)
+				return
+			}
+			link(blk)
+		}
+	}
+	return
+}
+
+// measureSlots builds the chains once and returns the largest slot number used by any block.
+func measureSlots(spec SyncSpec) (int, error) {
+	cd := &coder{m: map[string]uint64{}}
+	spec.genesisTime = 0
+	a, b, c, _, err := buildChains(spec, cd)
+	last := 0
+	for _, n := range []*exh.Node{a, b, c} {
+		if n != nil {
+			if s := n.Slot(n.Tip().Header.Timestamp); s > last {
+				last = s
+			}
+			n.DB.Close()
+		}
+	}
+	return last, err
 }
